@@ -939,7 +939,7 @@ class Translator:
         for key in sorted(self.units, key=lambda k: (k[2] == "init", k[0] != "Lattice", k[1], k[2])):
             self.translate_unit(key)
         out = ["(* GENERATED by translate/c09_atom.py from atom.py and lattice.py - do not edit *)",
-               "From Coq Require Import ZArith Bool String.", "From DS Require Import Base.C09_GNum Model.C09_Prims.", "",
+               "From Coq Require Import ZArith Bool List String.", "From DS Require Import Base.C09_GNum Model.C09_Prims.", "Import ListNotations.", "",
                "(* every definition takes the context C : cctx T = (number operations, pi, sqrt, the module constant",
                "   lattice.cartesian) first, so that arities do not depend on what a body happens to use *)", ""]
         e = self.lat_epsilon
